@@ -139,6 +139,85 @@ def check_field(ev, ci, runm, name, d, tn, xn, want, res):
     return True
 
 
+OPACITY = {'siga': {'sigA', 'expDensity_abs', 'expTemp_abs'},
+           'sigs': {'sigS', 'expDensity_scat', 'expTemp_scat'}}
+MIN_OPACITY_SITES = 40      # confirmed on the pinned tree: 44 definitions in radshocks/fnctn_*.py
+
+
+def sibling_opacities(model, res):
+    """The absorption / scattering cross sections are re-derived in ~22 helper functions each
+    (siga = sigA * rho**expDensity_abs * T**expTemp_abs, sigs likewise with the *_scat parameters).
+    The flux balances hold identically only because every copy is the same expression: each
+    definition may use only the parameters of its own process, must use all three of them, and all
+    copies must have the same shape (one coefficient times a power of density times a power of
+    temperature)."""
+    sites = 0
+    shapes = {}
+    for mname, m in model.modules.items():
+        if not mname.startswith('exactpack.solvers.radshocks'):
+            continue
+        for fi in list(m.functions.values()) + [f for c in m.classes.values() for f in c.methods.values()]:
+            for st in ast.walk(fi.node):
+                if isinstance(st, ast.Assign) and len(st.targets) == 1 and isinstance(st.targets[0], ast.Name) \
+                        and st.targets[0].id in OPACITY:
+                    tgt = st.targets[0].id
+                    attrs = [a.attr for a in ast.walk(st.value) if isinstance(a, ast.Attribute)
+                             and isinstance(a.value, ast.Name) and a.value.id in ('self', 'inst', 'incoming')]
+                    if not attrs:
+                        continue
+                    sites += 1
+                    res.obligations += 1
+                    res.evaluations += 1
+                    res.nontrivial += 1
+                    want = OPACITY[tgt]
+                    # shape: coefficient * X**exp * Y**exp with local names abstracted positionally
+                    names = []
+                    def shape(e):
+                        if isinstance(e, ast.BinOp):
+                            return '(%s %s %s)' % (shape(e.left), type(e.op).__name__, shape(e.right))
+                        if isinstance(e, ast.Attribute):
+                            return 'P:' + e.attr
+                        if isinstance(e, ast.Name):
+                            if e.id not in names:
+                                names.append(e.id)
+                            return 'v%d' % names.index(e.id)
+                        if isinstance(e, ast.Constant):
+                            return repr(e.value)
+                        return type(e).__name__
+                    sh = shape(st.value)
+                    shapes.setdefault(tgt, {}).setdefault(sh, []).append((fi, st))
+                    if set(attrs) != want:
+                        wrong = sorted(set(attrs) - want)
+                        missing = sorted(want - set(attrs))
+                        res.add(Finding(PROP, 'C12.sibling-opacity', fi.module.relpath, fi.qualname,
+                                        '%s uses %s' % (tgt, sorted(set(attrs))),
+                                        "%s: the %s cross section `%s = %s` uses %s%s; every other copy uses exactly %s. "
+                                        "The helper functions must agree on the cross sections for the total energy and "
+                                        "momentum fluxes to be constant along the profile"
+                                        % (fi.qualname, 'absorption' if tgt == 'siga' else 'scattering', tgt, ast.unparse(st.value)[:80],
+                                           'the foreign parameter(s) %s' % wrong if wrong else 'not all of its parameters',
+                                           ' and lacks %s' % missing if missing else '', sorted(want)),
+                                        line=st.lineno, construct=ast.unparse(st)[:100]))
+                    else:
+                        res.discharged += 1
+    if sites < MIN_OPACITY_SITES:
+        raise AnalysisError('only %d cross-section definitions found in radshocks (confirmed >= %d)' % (sites, MIN_OPACITY_SITES))
+    # shape agreement (majority is unanimous today)
+    for tgt, d in shapes.items():
+        if len(d) > 1:
+            major = max(d, key=lambda k: len(d[k]))
+            for sh, lst in d.items():
+                if sh == major:
+                    continue
+                for fi, st in lst:
+                    res.add(Finding(PROP, 'C12.sibling-opacity', fi.module.relpath, fi.qualname,
+                                    '%s has a deviant form' % tgt,
+                                    "%s: `%s` differs in form from the %d other definitions of %s (%s)"
+                                    % (fi.qualname, ast.unparse(st)[:80], len(d[major]), tgt, major[:80]),
+                                    line=st.lineno, construct=ast.unparse(st)[:100]))
+    res.extra['opacity_definition_sites'] = sites
+
+
 def run(model, tier):
     res = Result(PROP)
     res.explanation = (
@@ -149,10 +228,13 @@ def run(model, tier):
         "normal form of c equal to M0*sqrt(gamma*(gamma-1)*Cv*Tref) over the INSTANCE's parameter atoms: the "
         'returned solution is the stored steady profile displaced by Mach number x upstream sound speed x t and '
         'nothing else changes with time. Flux constancy along the profile and the downstream equilibrium are '
-        'numerics inside utils.py and are not decided.')
+        'numerics inside utils.py and are not decided, except for one structural necessary condition, R12.3: the 44 '
+        'copies of the absorption / scattering cross-section formula in the profile helper functions all use exactly the '
+        'parameters of their own process and have one common form (sibling agreement).')
     res.rule_text = 'instance = one derived class attribute / one returned field'
     res.trusted_base = ['CPython ast', 'NF engine', 'numpy.interp semantics']
     n = stale_class_attrs(model, res)
     res.extra['derived_class_attributes'] = n
     travelling(model, res)
+    sibling_opacities(model, res)
     return res
